@@ -159,14 +159,29 @@ def _pool_init():
     warnings.simplefilter("ignore")
 
 
+def _seeded_call(a):
+    """run one item with the global torch RNG seeded from its position: library code that draws random numbers (Lanczos start vectors, probe
+    vectors) behaves the same in every run and in a replay"""
+    import torch
+
+    import zlib
+
+    fn, idx, item = a
+    # (seeded from the item's content, not its position: TLC's print order is not stable across runs)
+    h = zlib.crc32(json.dumps(item, sort_keys=True, default=str).encode())
+    torch.manual_seed(1000003 * (int(os.environ.get("VERIF_SEED", "0")) + 1) + h)
+    return fn(item)
+
+
 def pmap(fn, items, procs=16, chunksize=8):
     """Parallel map over behaviours with torch single-threaded workers (fork)."""
     items = list(items)
     if not items:
         return []
+    work = [(fn, i, x) for i, x in enumerate(items)]
     if procs <= 1 or len(items) < 4:
         _pool_init()
-        return [fn(x) for x in items]
+        return [_seeded_call(w) for w in work]
     ctx = mp.get_context("fork")
     with ctx.Pool(procs, initializer=_pool_init) as pool:
-        return pool.map(fn, items, chunksize=chunksize)
+        return pool.map(_seeded_call, work, chunksize=chunksize)
